@@ -86,6 +86,10 @@ def check(run):
     for cfg in run.cfgs("A", "D"):
         F = run.facts(cfg)
         run.guard("C02.7.host-verbatim", cfg, lambda: rule_host_verbatim(run, F, cfg))
+    for cfg in run.cfgs("A", "D"):
+        F = run.facts(cfg)
+        b63 = run.borrow("C06", why="a pattern is matched with the regex compiled for ITS OWN text: the cache key has to identify the rule (and be dropped when rules are re-allocated or fused)")
+        run.guard("C02.via.C06.3.cache-key-validity", cfg, lambda: _C06.rule_cache_key(b63, F, cfg))
 
 
 def rule_host_verbatim(run, F, cfg):
